@@ -560,6 +560,19 @@ def h_call(f, *a, **k):
             if done:
                 return r
             return f(*a, **k)
+        if type(recv) is dict and a and isinstance(a[0], (SSeq, SInt)) and f.__name__ in ('get', 'pop', '__contains__'):
+            found, v = _plain_dict_find(recv, a[0])
+            if f.__name__ == '__contains__':
+                return found
+            if found:
+                if f.__name__ == 'pop':
+                    raise Unmodelled('dict.pop with a symbolic key on a native dict')
+                return v
+            if len(a) > 1:
+                return a[1]
+            if f.__name__ == 'pop':
+                raise KeyError(a[0])
+            return None
         sp_ = SPECIAL.get(f)
         if sp_ is not None:
             return sp_(f, a, k)
@@ -695,6 +708,36 @@ def h_in(x, c, negate):
     return (not r) if negate else r
 
 
+def h_dict_pairs(pairs):
+    d = SymDict()
+    for k, v in pairs:
+        d[k] = v
+    return d
+
+
+def _plain_dict_find(d, key):
+    """solver-decided lookup of a symbolic key in a native dict (keys compared one by one)"""
+    for k in list(d.keys()):
+        eq = (key == k)
+        if eq is False:
+            continue
+        if eq is True or bool(eq):
+            return True, d[k]
+    return False, None
+
+
+def h_getitem(obj, key):
+    try:
+        return obj[key]
+    except TypeError:
+        if type(obj) is dict and isinstance(key, (SSeq, SInt)):
+            found, v = _plain_dict_find(obj, key)
+            if found:
+                return v
+            raise KeyError(key)
+        raise
+
+
 def h_enter(name):
     REACHED.add(name)
 
@@ -714,6 +757,18 @@ class Instr(ast.NodeTransformer):
             func=ast.Name('_sx_dict_', ast.Load()),
             args=[ast.List(list(node.keys), ast.Load()), ast.List(list(node.values), ast.Load())],
             keywords=[]), node)
+
+    def visit_DictComp(self, node):
+        self.generic_visit(node)
+        pairs = ast.ListComp(elt=ast.Tuple(elts=[node.key, node.value], ctx=ast.Load()), generators=node.generators)
+        return ast.copy_location(ast.Call(func=ast.Name('_sx_dict_pairs_', ast.Load()), args=[pairs], keywords=[]), node)
+
+    def visit_Subscript(self, node):
+        self.generic_visit(node)
+        if isinstance(node.ctx, ast.Load) and not isinstance(node.slice, ast.Slice):
+            return ast.copy_location(ast.Call(func=ast.Name('_sx_getitem_', ast.Load()),
+                                              args=[node.value, node.slice], keywords=[]), node)
+        return node
 
     def visit_Call(self, node):
         self.generic_visit(node)
@@ -768,7 +823,7 @@ class Instr(ast.NodeTransformer):
 
 HELPERS = {
     '_sx_call_': h_call, '_sx_mod_': h_mod, '_sx_in_': h_in, '_sx_dict_': h_dict,
-    '_sx_enter_': h_enter,
+    '_sx_enter_': h_enter, '_sx_dict_pairs_': h_dict_pairs, '_sx_getitem_': h_getitem,
 }
 
 
